@@ -492,7 +492,7 @@ def finish(res, proofs, level='proof', assumptions=None, rule='', extra=None, co
         print('KNOWN-FINDING: property=%s %s' % (res.pid, k))
     cov = {
         'obligations': max(proofs['obligations'], 1), 'discharged': proofs['discharged'],
-        'checker_cmd': 'make -C coq (full .vo build, coq_makefile) ; coqc -Q coq Ink coq/Properties/%s.v' % res.pid,
+        'checker_cmd': 'make -C coq <all non-property .vo> ; make -C coq -j1 Properties/%s.vo Properties/%s_*.vo (Print Assumptions output parsed); thorough: coqchk -o' % (res.pid, res.pid),
         'trusted_base': TRUSTED_BASE + ['Print Assumptions: ' + (', '.join(proofs['axioms']) if proofs['axioms'] else 'Closed under the global context for every pinned theorem')],
         'theorems': proofs['theorems'],
         'evaluations': max(res.evaluations, 1), 'distinct_nontrivial': len(res.distinct),
